@@ -581,6 +581,9 @@ pub fn minimise(case: &Case, target: &Violation, max_evals: usize) -> (Case, Vio
     let mut best = case.clone();
     let mut best_v = target.clone();
     let mut evals = 0usize;
+    // wall-clock cap on shrinking only (deep-search cases cost seconds per evaluation); it
+    // can make the reported case larger, never change whether a violation is reported
+    let started = std::time::Instant::now();
     loop {
         let mut improved = false;
         let cands = match &best {
@@ -590,7 +593,7 @@ pub fn minimise(case: &Case, target: &Violation, max_evals: usize) -> (Case, Vio
         };
         let current = measure(&best);
         for cand in cands {
-            if evals >= max_evals {
+            if evals >= max_evals || started.elapsed().as_secs() > 120 {
                 return (best, best_v, evals);
             }
             if measure(&cand) >= current {
